@@ -25,6 +25,7 @@ pub mod c12;
 pub mod c12_fn;
 pub mod c13;
 pub mod c09;
+pub mod c10;
 pub mod c11;
 
 pub fn run(id: &str, ctx: &Ctx) -> i32 {
@@ -43,6 +44,7 @@ pub fn run(id: &str, ctx: &Ctx) -> i32 {
         "C13" => finish(ctx, c13::run(ctx), Some(&c13::replay)),
         "C07" => finish(ctx, c07::run(ctx), Some(&c07::replay)),
         "C09" => finish(ctx, c09::run(ctx), Some(&c09::replay)),
+        "C10" => finish(ctx, c10::run(ctx), Some(&c10::replay)),
         "C11" => finish(ctx, c11::run(ctx), Some(&c11::replay)),
         _ => {
             eprintln!("unknown or unbuilt check {id}");
@@ -67,6 +69,7 @@ pub fn replay(id: &str, case: &Value) -> Result<(), String> {
         "C13" => c13::replay(case),
         "C07" => c07::replay(case),
         "C09" => c09::replay(case),
+        "C10" => c10::replay(case),
         "C11" => c11::replay(case),
         _ => Err(format!("no replay for {id}")),
     }
